@@ -201,13 +201,19 @@ def opOk (c : Cfg) (st : St) : Op → Bool
   | .free h => decide (h < st.hs.length)
   | .keep _ n => decide (1 ≤ n) && (decide (c.maxq < n) ||
       (decide ((activeIds st.hs).length + n ≤ limit c) && (!c.nv || nvKeepOk c st n)))
-  | .seq _ _ _ => decide ((activeIds st.hs).length + 1 ≤ limit c)
-  | .ctx _ n sequential _ => (!sequential && decide (c.maxq < n)) ||
-      (if sequential || c.single then decide ((activeIds st.hs).length + 1 ≤ limit c)
+  | .seq _ n b => decide ((activeIds st.hs).length + 1 ≤ limit c) &&
+      (b.consume.consumes || decide (n ≤ 1))
+  | .postk _ n b => decide (c.maxq < n) ||
+      (if c.single then decide ((activeIds st.hs).length + 1 ≤ limit c) &&
+          (b.consume.consumes || decide (n ≤ 1))
+       else decide ((activeIds st.hs).length + n ≤ limit c))
+  | .ctx _ n sequential b => (!sequential && decide (c.maxq < n)) ||
+      (if sequential || c.single then decide ((activeIds st.hs).length + 1 ≤ limit c) &&
+          (b.consume.consumes || decide (n ≤ 1))
        else decide ((activeIds st.hs).length + n ≤ limit c))
   | .keepr _ n fails tries => decide (1 ≤ n) && decide (n ≤ c.maxq) && decide (fails < tries) &&
       decide ((activeIds st.hs).length + n ≤ limit c) && (!c.nv || nvKeepOk c st n)
-  | .seqr _ _ _ fails tries => decide (fails < tries) &&
+  | .seqr _ _ b fails tries => decide (fails < tries) && b.consume.consumes &&
       decide ((activeIds st.hs).length + 1 ≤ limit c)
   | .flush => true
   | .close => true
@@ -1056,15 +1062,61 @@ theorem run_uses {m : Nat} {u : List Nat} {d : Nat} (h1 : d < m) (h2 : d ∈ u) 
     simp only [List.replicate_succ, List.cons_append, run, step_use h1 h2]
     exact ih rest
 
-theorem run_bodyEvs {m : Nat} {u : List Nat} {d : Nat} (b : Body) (h1 : d < m) (h2 : d ∈ u) :
+theorem run_bodyEvs {m : Nat} {u : List Nat} {d : Nat} (b : Body) (hc : b.consume.consumes = true)
+    (h1 : d < m) (h2 : d ∈ u) :
     ∃ u', run m u (bodyEvs d b) = .ok u' ∧ ∀ w, w ∈ u' ↔ (w ∈ u ∧ w ≠ d) := by
   unfold bodyEvs
   rw [run_uses h1 h2]
-  cases b.consume with
+  cases hb : b.consume with
   | meas => exact run_meas_free_spec h1 h2
   | free => exact run_free_spec h1 h2
+  | inplace => rw [hb] at hc; cases hc
+  | none => rw [hb] at hc; cases hc
 
-theorem run_bodyLoop {m : Nat} (b : Body) : ∀ (ids u : List Nat), (∀ d ∈ ids, d ∉ u ∧ d < m) →
+/-- a body that does not consume the pair leaves the unit module as it is -/
+theorem run_bodyKeepEvs {m : Nat} {u : List Nat} {d : Nat} (b : Body) (hc : b.consume.consumes = false)
+    (h1 : d < m) (h2 : d ∈ u) : run m u (bodyEvs d b) = .ok u := by
+  unfold bodyEvs
+  rw [run_uses h1 h2]
+  cases hb : b.consume with
+  | meas => rw [hb] at hc; cases hc
+  | free => rw [hb] at hc; cases hc
+  | inplace => simp only [run, step_use h1 h2]
+  | none => rfl
+
+theorem run_bodyKeep {m : Nat} (b : Body) (hc : b.consume.consumes = false) :
+    ∀ (ids u : List Nat), (∀ v ∈ ids, v < m) → ids.Nodup → (∀ v ∈ ids, v ∉ u) →
+    ∃ u', run m u (ids.flatMap (fun d => Ev.deliver d :: bodyEvs d b)) = .ok u' ∧
+      ∀ w, w ∈ u' ↔ w ∈ u ∨ w ∈ ids := by
+  intro ids
+  induction ids with
+  | nil => intro u _ _ _; exact ⟨u, rfl, by simp⟩
+  | cons a t ih =>
+    intro u hb hn hd
+    rw [List.nodup_cons] at hn
+    obtain ⟨u', hu', hm'⟩ := ih (a :: u) (fun v hv => hb v (List.mem_cons_of_mem _ hv)) hn.2
+      (fun v hv hvu => by
+        rcases List.mem_cons.mp hvu with h | h
+        · exact hn.1 (h ▸ hv)
+        · exact hd v (List.mem_cons_of_mem _ hv) h)
+    refine ⟨u', ?_, ?_⟩
+    · simp only [List.flatMap_cons, List.cons_append, run,
+        step_deliver (hb a List.mem_cons_self) (hd a List.mem_cons_self)]
+      rw [run_append, run_bodyKeepEvs b hc (hb a List.mem_cons_self) List.mem_cons_self]
+      exact hu'
+    · intro w; rw [hm' w]; simp only [List.mem_cons]
+      constructor
+      · rintro ((h | h) | h)
+        · exact Or.inr (Or.inl h)
+        · exact Or.inl h
+        · exact Or.inr (Or.inr h)
+      · rintro (h | h | h)
+        · exact Or.inl (Or.inr h)
+        · exact Or.inl (Or.inl h)
+        · exact Or.inr h
+
+theorem run_bodyLoop {m : Nat} (b : Body) (hc : b.consume.consumes = true) :
+    ∀ (ids u : List Nat), (∀ d ∈ ids, d ∉ u ∧ d < m) →
     ∃ u', run m u (ids.flatMap (fun d => Ev.deliver d :: bodyEvs d b)) = .ok u' ∧
       ∀ w, w ∈ u' ↔ w ∈ u := by
   intro ids
@@ -1073,7 +1125,7 @@ theorem run_bodyLoop {m : Nat} (b : Body) : ∀ (ids u : List Nat), (∀ d ∈ i
   | cons d t ih =>
     intro u h
     obtain ⟨hd1, hd2⟩ := h d List.mem_cons_self
-    obtain ⟨u1, hu1, hm1⟩ := run_bodyEvs (u := d :: u) b hd2 List.mem_cons_self
+    obtain ⟨u1, hu1, hm1⟩ := run_bodyEvs (u := d :: u) b hc hd2 List.mem_cons_self
     have hm1' : ∀ w, w ∈ u1 ↔ w ∈ u := by
       intro w; rw [hm1 w, List.mem_cons]
       constructor
@@ -1089,13 +1141,13 @@ theorem run_bodyLoop {m : Nat} (b : Body) : ∀ (ids u : List Nat), (∀ d ∈ i
     exact hu2
 
 /-- a loop over pairs whose body consumes each pair leaves ids and unit module as they were -/
-theorem inv_loop {c : Cfg} {st : St} (hi : Inv c st) (b : Body) (hs' : List Handle) (ids : List Nat)
-    (ea : activeIds hs' = activeIds st.hs)
+theorem inv_loop {c : Cfg} {st : St} (hi : Inv c st) (b : Body) (hc : b.consume.consumes = true)
+    (hs' : List Handle) (ids : List Nat) (ea : activeIds hs' = activeIds st.hs)
     (hids : ∀ d ∈ ids, d ∉ activeIds st.hs ∧ d < c.maxq) :
     Inv c { st with hs := hs', evs := st.evs ++ ids.flatMap (fun d => Ev.deliver d :: bodyEvs d b),
                     lastAlloc := none } := by
   obtain ⟨u, hu, hm⟩ := hi.runs
-  obtain ⟨u', hu', hm'⟩ := run_bodyLoop (m := c.maxq) b ids u
+  obtain ⟨u', hu', hm'⟩ := run_bodyLoop (m := c.maxq) b hc ids u
     (fun d hd => ⟨fun h => (hids d hd).1 ((hm d).mp h), (hids d hd).2⟩)
   refine ⟨?_, ?_, ?_, ⟨u', run_snoc_ok hu hu', ?_⟩, by simp⟩
   · simp only [ea]; exact hi.nodup
@@ -1120,7 +1172,7 @@ theorem mem_replicate_imp {n d w : Nat} (h : w ∈ List.replicate n d) : w = d :
 /-- sequential-style handle creation (`sequential=True`, or a context block on
 single-communication-qubit hardware): all pairs use one id -/
 theorem inv_loop_sequential {c : Cfg} {st : St} (hi : Inv c st) (n : Nat) (b : Body)
-    (hb : (activeIds st.hs).length + 1 ≤ limit c) :
+    (hc : b.consume.consumes = true) (hb : (activeIds st.hs).length + 1 ≤ limit c) :
     ∃ st1 d, createEnt c st n true = .ok (st1, List.replicate n d) ∧
       (c.single = true → d = 0) ∧
       Inv c { st1 with hs := releaseLast n st1.hs,
@@ -1135,7 +1187,7 @@ theorem inv_loop_sequential {c : Cfg} {st : St} (hi : Inv c st) (n : Nat) (b : B
     · simp [createEnt, hnv]
     · have hr := releaseLast_append (freeUp c st).hs (List.replicate n ⟨0, true⟩) n (by simp)
       simp only [hr]
-      exact inv_loop j1 b _ _ (activeIds_release _ _)
+      exact inv_loop j1 b hc _ _ (activeIds_release _ _)
         (fun d hd => by rw [mem_replicate_imp hd]; exact ⟨j2, by omega⟩)
   | false =>
     have hlim1 : limit c = c.maxq := by unfold limit; simp [hnv]
@@ -1150,13 +1202,93 @@ theorem inv_loop_sequential {c : Cfg} {st : St} (hi : Inv c st) (n : Nat) (b : B
       rw [List.eq_nil_of_length_eq_zero hl0]; exact lowestUnused_nil
     · have hr := releaseLast_append st.hs (List.replicate n ⟨lowestUnused (activeIds st.hs), true⟩) n (by simp)
       simp only [hr]
-      exact inv_loop hi b _ _ (activeIds_release _ _)
+      exact inv_loop hi b hc _ _ (activeIds_release _ _)
         (fun d hd => by rw [mem_replicate_imp hd]; exact ⟨hv, by omega⟩)
 
-theorem inv_seq {c : Cfg} {st : St} (hi : Inv c st) {r : Bool} {n : Nat} {b : Body}
+theorem activeIds_replicate (n d : Nat) : activeIds (List.replicate n (⟨d, true⟩ : Handle)) = List.replicate n d := by
+  induction n with
+  | zero => rfl
+  | succ k ih => rw [List.replicate_succ, activeIds_cons_active _ _ (by rfl), ih]; rfl
+
+/-- a loop whose body does NOT consume the pairs: the pairs' ids stay allocated and their
+handles stay active -/
+theorem inv_loop_keep {c : Cfg} {st : St} (hi : Inv c st) (b : Body) (hc : b.consume.consumes = false)
+    (hs' : List Handle) (ids : List Nat)
+    (ea : activeIds hs' = activeIds st.hs ++ ids) (hn : (activeIds st.hs ++ ids).Nodup)
+    (hb : ∀ v ∈ ids, v < c.maxq) (hcount : (activeIds st.hs).length + ids.length ≤ limit c) :
+    Inv c { st with hs := hs', evs := st.evs ++ ids.flatMap (fun d => Ev.deliver d :: bodyEvs d b),
+                    lastAlloc := none } := by
+  obtain ⟨u, hu, hm⟩ := hi.runs
+  obtain ⟨hn1, hn2, hn3⟩ := List.nodup_append.mp hn
+  obtain ⟨u', hu', hm'⟩ := run_bodyKeep (m := c.maxq) b hc ids u hb hn2
+    (fun v hv hvu => hn3 v ((hm v).mp hvu) v hv rfl)
+  refine ⟨?_, ?_, ?_, ⟨u', run_snoc_ok hu hu', ?_⟩, by simp⟩
+  · simp only [ea]; exact hn
+  · simp only [ea]; intro v hv
+    rcases List.mem_append.mp hv with h | h
+    · exact hi.bound v h
+    · exact hb v h
+  · simp only [ea, List.length_append]; exact hcount
+  · intro w; simp only [ea]; rw [hm' w, hm w, List.mem_append]
+
+/-- `_create_ent_qubits` with one shared id (sequential request, or single-communication-qubit
+hardware): the state before the handles are added, and the id -/
+theorem createEnt_seq_spec {c : Cfg} {st : St} (hi : Inv c st) (n : Nat)
     (hb : (activeIds st.hs).length + 1 ≤ limit c) :
+    ∃ base d, Inv c base ∧ (activeIds base.hs).length = (activeIds st.hs).length ∧
+      createEnt c st n true =
+        .ok (⟨base.hs ++ List.replicate n ⟨d, true⟩, base.evs, base.lastAlloc, base.unit⟩, List.replicate n d) ∧
+      (c.single = true → d = 0) ∧ d ∉ activeIds base.hs ∧ d < c.maxq := by
+  have hlim := limit_le c
+  cases hnv : c.nv with
+  | true =>
+    obtain ⟨j1, j2, j3, _⟩ := inv_freeUp hi hnv
+    have hlim1 : limit c = c.maxq - 1 := by unfold limit; simp [hnv]
+    exact ⟨freeUp c st, 0, j1, j3, by simp [createEnt, hnv], fun _ => rfl, j2, by omega⟩
+  | false =>
+    have hlim1 : limit c = c.maxq := by unfold limit; simp [hnv]
+    have hv := lowestUnused_not_mem (activeIds st.hs)
+    have hl := lowestUnused_le_length (activeIds st.hs) hi.nodup
+    refine ⟨st, lowestUnused (activeIds st.hs), hi, rfl, by simp [createEnt, hnv], ?_, hv, by omega⟩
+    intro hs
+    simp only [Cfg.single, hnv, Bool.false_or, beq_iff_eq] at hs
+    have hl0 : (activeIds st.hs).length = 0 := by omega
+    rw [List.eq_nil_of_length_eq_zero hl0]; exact lowestUnused_nil
+
+/-- one-id loop constructs: consuming body (any number of pairs) or a body that keeps the pair
+(at most one pair — a second one could never be delivered into the same id) -/
+theorem inv_onebyone {c : Cfg} {st : St} (hi : Inv c st) (n : Nat) (b : Body)
+    (hb : (activeIds st.hs).length + 1 ≤ limit c) (hk : b.consume.consumes = true ∨ n ≤ 1) :
+    ∃ st1 d, createEnt c st n true = .ok (st1, List.replicate n d) ∧ (c.single = true → d = 0) ∧
+      Inv c { st1 with hs := if b.consume.consumes then releaseLast n st1.hs else st1.hs,
+                       evs := st1.evs ++ (List.replicate n d).flatMap (fun d => Ev.deliver d :: bodyEvs d b),
+                       lastAlloc := none } := by
+  obtain ⟨base, d, hib, hlen, hce, hd0, hdn, hdm⟩ := createEnt_seq_spec hi n hb
+  refine ⟨_, d, hce, hd0, ?_⟩
+  cases hc : b.consume.consumes with
+  | true =>
+    simp only [if_true]
+    rw [releaseLast_append base.hs (List.replicate n ⟨d, true⟩) n (by simp)]
+    exact inv_loop hib b hc _ _ (activeIds_release _ _)
+      (fun x hx => by rw [mem_replicate_imp hx]; exact ⟨hdn, hdm⟩)
+  | false =>
+    have hn1 : n ≤ 1 := by
+      rcases hk with h | h
+      · rw [hc] at h; cases h
+      · exact h
+    simp only [Bool.false_eq_true, if_false]
+    refine inv_loop_keep hib b hc _ (List.replicate n d) ?_ ?_ ?_ ?_
+    · rw [activeIds_append, activeIds_replicate]
+    · match n, hn1 with
+      | 0, _ => simpa using hib.nodup
+      | 1, _ => exact nodup_snoc hib.nodup hdn
+    · intro v hv; rw [mem_replicate_imp hv]; exact hdm
+    · simp only [List.length_replicate, hlen]; omega
+
+theorem inv_seq {c : Cfg} {st : St} (hi : Inv c st) {r : Bool} {n : Nat} {b : Body}
+    (hb : (activeIds st.hs).length + 1 ≤ limit c) (hk : b.consume.consumes = true ∨ n ≤ 1) :
     Inv c (apply c st (.seq r n b)).1 ∧ (apply c st (.seq r n b)).2.fatal = false := by
-  obtain ⟨st1, d, e1, hd, i1⟩ := inv_loop_sequential hi n b hb
+  obtain ⟨st1, d, e1, hd, i1⟩ := inv_onebyone hi n b hb hk
   simp only [apply, e1]
   refine ⟨?_, rfl⟩
   by_cases hs : c.single = true
@@ -1166,36 +1298,78 @@ theorem inv_seq {c : Cfg} {st : St} (hi : Inv c st) {r : Bool} {n : Nat} {b : Bo
   · simp only [hs]
     exact i1
 
+/-- distinct ids (generic hardware, not sequential): consuming or keeping bodies -/
+theorem inv_distinct {c : Cfg} {st : St} (hi : Inv c st) (hnv : c.nv = false) (n : Nat) (b : Body)
+    (hb : (activeIds st.hs).length + n ≤ limit c) :
+    Inv c { (genEnt st n).1 with
+      hs := if b.consume.consumes then releaseLast n (genEnt st n).1.hs else (genEnt st n).1.hs,
+      evs := (genEnt st n).1.evs ++ (genEnt st n).2.flatMap (fun d => Ev.deliver d :: bodyEvs d b),
+      lastAlloc := none } := by
+  obtain ⟨i1, i2, i3, i4, i5, i6, i7⟩ := genEnt_spec n st hi.nodup
+  obtain ⟨new, en, hl⟩ := genEnt_hs n st
+  have hlim := limit_le c
+  cases hc : b.consume.consumes with
+  | true =>
+    simp only [if_true]
+    have hr := releaseLast_append st.hs new n hl
+    have key := inv_loop hi b hc (st.hs ++ new.map (fun q => (⟨q.id, false⟩ : Handle))) (genEnt st n).2
+      (activeIds_release _ _)
+      (fun d hd => ⟨fun hm => (List.nodup_append.mp i5).2.2 d hm d hd rfl, by have := i7 d hd; omega⟩)
+    show Inv c ⟨releaseLast n (genEnt st n).1.hs, (genEnt st n).1.evs ++ _, none, (genEnt st n).1.unit⟩
+    rw [en, hr, i1, i3]; exact key
+  | false =>
+    simp only [Bool.false_eq_true, if_false]
+    have key := inv_loop_keep hi b hc (genEnt st n).1.hs (genEnt st n).2 i4 i5
+      (fun v hv => by have := i7 v hv; omega) (by rw [i6]; exact hb)
+    show Inv c ⟨(genEnt st n).1.hs, (genEnt st n).1.evs ++ _, none, (genEnt st n).1.unit⟩
+    rw [i1, i3]; exact key
+
 theorem inv_ctx {c : Cfg} {st : St} (hi : Inv c st) {r : Bool} {n : Nat} {sq : Bool} {b : Body}
     (hk : (sq = false ∧ c.maxq < n) ∨
-      ((sq || c.single) = true ∧ (activeIds st.hs).length + 1 ≤ limit c) ∨
+      ((sq || c.single) = true ∧ (activeIds st.hs).length + 1 ≤ limit c ∧
+        (b.consume.consumes = true ∨ n ≤ 1)) ∨
       ((sq || c.single) = false ∧ (activeIds st.hs).length + n ≤ limit c)) :
     Inv c (apply c st (.ctx r n sq b)).1 ∧ (apply c st (.ctx r n sq b)).2.fatal = false := by
   simp only [apply]
   by_cases hv : (!sq && decide (c.maxq < n)) = true
   · rw [if_pos hv]; exact ⟨hi, rfl⟩
   · rw [if_neg hv]
-    rcases hk with ⟨h1, h2⟩ | ⟨h1, h2⟩ | ⟨h1, h2⟩
+    rcases hk with ⟨h1, h2⟩ | ⟨h1, h2, h3⟩ | ⟨h1, h2⟩
     · exfalso; apply hv; simp [h1, h2]
-    · obtain ⟨st1, d, e1, _, i1⟩ := inv_loop_sequential hi n b h2
+    · obtain ⟨st1, d, e1, _, i1⟩ := inv_onebyone hi n b h2 h3
       rw [h1, e1]
       exact ⟨i1, rfl⟩
     · rw [h1]
       have hnv : c.nv = false := by
         simp only [Bool.or_eq_false_iff, Cfg.single] at h1
         exact h1.2.1
-      obtain ⟨i1, i2, i3, i4, i5, i6, i7⟩ := genEnt_spec n st hi.nodup
-      obtain ⟨new, en, hl⟩ := genEnt_hs n st
       have hce : createEnt c st n false = .ok (genEnt st n) := by simp [createEnt, hnv]
       rw [hce]
-      refine ⟨?_, rfl⟩
-      have hlim := limit_le c
-      have hr := releaseLast_append st.hs new n hl
-      have key := inv_loop hi b (st.hs ++ new.map (fun q => (⟨q.id, false⟩ : Handle))) (genEnt st n).2
-        (activeIds_release _ _)
-        (fun d hd => ⟨fun hm => (List.nodup_append.mp i5).2.2 d hm d hd rfl, by have := i7 d hd; omega⟩)
-      show Inv c ⟨releaseLast n (genEnt st n).1.hs, (genEnt st n).1.evs ++ _, none, (genEnt st n).1.unit⟩
-      rw [en, hr, i1, i3]; exact key
+      exact ⟨inv_distinct hi hnv n b h2, rfl⟩
+
+theorem inv_postk {c : Cfg} {st : St} (hi : Inv c st) {r : Bool} {n : Nat} {b : Body}
+    (hk : c.maxq < n ∨
+      (c.single = true ∧ (activeIds st.hs).length + 1 ≤ limit c ∧ (b.consume.consumes = true ∨ n ≤ 1)) ∨
+      (c.single = false ∧ (activeIds st.hs).length + n ≤ limit c)) :
+    Inv c (apply c st (.postk r n b)).1 ∧ (apply c st (.postk r n b)).2.fatal = false := by
+  simp only [apply]
+  by_cases hv : c.maxq < n
+  · rw [if_pos hv]; exact ⟨hi, rfl⟩
+  · rw [if_neg hv]
+    rcases hk with h | ⟨h1, h2, h3⟩ | ⟨h1, h2⟩
+    · exact absurd h hv
+    · obtain ⟨st1, d, e1, hd, i1⟩ := inv_onebyone hi n b h2 h3
+      rw [h1, e1]
+      simp only [if_true]
+      rw [hd h1] at i1
+      exact ⟨i1, rfl⟩
+    · have hnv : c.nv = false := by
+        simp only [Cfg.single, Bool.or_eq_false_iff] at h1
+        exact h1.1
+      have hce : createEnt c st n false = .ok (genEnt st n) := by simp [createEnt, hnv]
+      rw [h1, hce]
+      simp only [Bool.false_eq_true, if_false]
+      exact ⟨inv_distinct hi hnv n b h2, rfl⟩
 
 /-! ### min-fidelity retry loop -/
 
@@ -1293,7 +1467,7 @@ theorem freeUp_idem {c : Cfg} {st : St} (hi : Inv c st) (hnv : c.nv = true) :
     simp
 
 theorem inv_seqr {c : Cfg} {st : St} (hi : Inv c st) {r : Bool} {n : Nat} {b : Body} {fails tries : Nat}
-    (hf : fails < tries) (hb : (activeIds st.hs).length + 1 ≤ limit c) :
+    (hf : fails < tries) (hcb : b.consume.consumes = true) (hb : (activeIds st.hs).length + 1 ≤ limit c) :
     Inv c (apply c st (.seqr r n b fails tries)).1 ∧ (apply c st (.seqr r n b fails tries)).2.fatal = false := by
   -- state after the relocation
   have h0 : Inv c (freeUp c st) ∧ (activeIds (freeUp c st).hs).length = (activeIds st.hs).length := by
@@ -1301,8 +1475,8 @@ theorem inv_seqr {c : Cfg} {st : St} (hi : Inv c st) {r : Bool} {n : Nat} {b : B
     | false => rw [freeUp_generic st hnv]; exact ⟨hi, rfl⟩
     | true => obtain ⟨j1, _, j3, _⟩ := inv_freeUp hi hnv; exact ⟨j1, j3⟩
   obtain ⟨hi0, hl0⟩ := h0
-  obtain ⟨st1, d, e1, hd, i1⟩ := inv_loop_sequential hi0 n b (by rw [hl0]; exact hb)
-  simp only [apply, e1]
+  obtain ⟨st1, d, e1, hd, i1⟩ := inv_loop_sequential hi0 n b hcb (by rw [hl0]; exact hb)
+  simp only [apply, e1, hcb, if_true]
   refine ⟨?_, rfl⟩
   -- the single-attempt invariant, re-read for the retried events
   have harr : (if c.single = true then List.replicate n 0 else List.replicate n d) = List.replicate n d := by
@@ -1354,7 +1528,7 @@ theorem inv_seqr {c : Cfg} {st : St} (hi : Inv c st) {r : Bool} {n : Nat} {b : B
     (fun u => ∀ w, w ∈ u ↔ w ∈ activeIds (freeUp c st).hs) (fun u => ∀ w, w ∈ u ↔ w ∈ activeIds (freeUp c st).hs)
     ((List.replicate n d).flatMap (fun d => Ev.deliver d :: bodyEvs d b)) []
     (fun u0 hp => by
-      obtain ⟨u1, h1, m1⟩ := run_bodyLoop (m := c.maxq) b (List.replicate n d) u0
+      obtain ⟨u1, h1, m1⟩ := run_bodyLoop (m := c.maxq) b hcb (List.replicate n d) u0
         (fun x hx => ⟨fun h => (hev4 x hx).1 ((hp x).mp h), (hev4 x hx).2⟩)
       exact ⟨u1, h1, fun w => (m1 w).trans (hp w)⟩)
     (fun u0 hq => ⟨u0, rfl, hq⟩) fails u hm
@@ -1534,8 +1708,24 @@ theorem inv_apply {c : Cfg} {st : St} {op : Op} (hi : Inv c st) (hok : opOk c st
       beq_iff_eq] at hok
     exact inv_keep hi hok.1 hok.2
   | seq r n b =>
-    simp only [opOk, decide_eq_true_eq] at hok
-    exact inv_seq hi hok
+    simp only [opOk, Bool.and_eq_true, Bool.or_eq_true, decide_eq_true_eq] at hok
+    exact inv_seq hi hok.1 hok.2
+  | postk r n b =>
+    apply inv_postk hi
+    simp only [opOk] at hok
+    cases hs : c.single with
+    | true =>
+      rw [hs] at hok
+      simp only [if_true, Bool.or_eq_true, Bool.and_eq_true, decide_eq_true_eq] at hok
+      rcases hok with h | h
+      · exact Or.inl h
+      · exact Or.inr (Or.inl ⟨rfl, h.1, h.2⟩)
+    | false =>
+      rw [hs] at hok
+      simp only [Bool.false_eq_true, if_false, Bool.or_eq_true, decide_eq_true_eq] at hok
+      rcases hok with h | h
+      · exact Or.inl h
+      · exact Or.inr (Or.inr ⟨rfl, h⟩)
   | ctx r n sq b =>
     apply inv_ctx hi
     simp only [opOk] at hok
@@ -1545,7 +1735,7 @@ theorem inv_apply {c : Cfg} {st : St} {op : Op} (hi : Inv c st) (hok : opOk c st
       simp only [if_true, Bool.or_eq_true, Bool.and_eq_true, Bool.not_eq_true', decide_eq_true_eq] at hok
       rcases hok with h | h
       · exact Or.inl h
-      · exact Or.inr (Or.inl ⟨rfl, h⟩)
+      · exact Or.inr (Or.inl ⟨rfl, h.1, h.2⟩)
     | false =>
       rw [hs] at hok
       simp only [Bool.false_eq_true, if_false, Bool.or_eq_true, Bool.and_eq_true, Bool.not_eq_true',
@@ -1558,7 +1748,7 @@ theorem inv_apply {c : Cfg} {st : St} {op : Op} (hi : Inv c st) (hok : opOk c st
     exact inv_keepr hi hok.1.1.1.1 hok.1.1.1.2 hok.1.1.2 hok.1.2 hok.2
   | seqr r n b fails tries =>
     simp only [opOk, Bool.and_eq_true, decide_eq_true_eq] at hok
-    exact inv_seqr hi hok.1 hok.2
+    exact inv_seqr hi hok.1.1 hok.1.2 hok.2
   | flush =>
     obtain ⟨i1, i2, _, _⟩ := inv_flush hi
     exact ⟨i1, by simp only [apply]; rw [i2]; rfl⟩
